@@ -51,7 +51,7 @@ def _chooser(case):
     return ex.choose
   if case.get('rseed') is None:
     return None
-  return sched.random_chooser(common.Rng('c12/%s' % case['rseed']), case.get('switch', 0.4))
+  return sched.chooser_for(case, 'c12')
 
 
 # ---------------------------------------------------------------------------
